@@ -6,6 +6,10 @@
   python -m harness.seedeval run <seed-id> [tier] [check-id]
                                                 apply the patch to /repo, run the property's check, undo the patch,
                                                 record the outcome in seeded/<seed-id>/meta.json
+  python -m harness.seedeval iso <seed-id> [check-ids] [tier] [meta-key]
+                                                the same without touching /repo: scratch worktree with the patch + scratch copy
+                                                of /verif run with VERIF_REPO/PYTHONPATH pointing at the worktree (so several
+                                                evaluations can run side by side); check-ids = comma list, e.g. for a cross-check
   python -m harness.seedeval table              detection table (markdown)
 """
 from __future__ import annotations
@@ -103,6 +107,47 @@ def run(seed_id, tier="quick", check_id=None):
     return 0
 
 
+def run_isolated(seed_id, checks=None, tier="quick", key="detected_by"):
+    """Evaluate a seeded change without touching /repo: scratch worktree + scratch copy of /verif, both removed afterwards.
+    `checks` is a comma-separated list of check ids (default: the seeded change's own property)."""
+    d = SEEDED / seed_id
+    meta = json.loads((d / "meta.json").read_text())
+    pids = checks.split(",") if checks else [meta["property"]]
+    tag = f"{seed_id}_{os.getpid()}"
+    wt, vc = f"/tmp/wte_{tag}", f"/tmp/vce_{tag}"
+    rc, out = sh(f"git -C {REPO} worktree add -q --detach {wt} HEAD")
+    if rc:
+        print(out)
+        return 2
+    results = {}
+    try:
+        rc, out = sh(f"git -C {wt} apply {d / 'patch.diff'}")
+        if rc:
+            print("patch does not apply", out)
+            return 2
+        sh(f"rsync -a --exclude .git --exclude .work --exclude seeded --exclude evidence/replay --exclude __pycache__ "
+           f"--exclude states {VERIF}/ {vc}/")
+        env = dict(ENV, PYTHONPATH=wt, VERIF_REPO=wt)
+        for pid in pids:
+            t0 = time.time()
+            rc, out = sh(f"./check {pid} --tier {tier}", cwd=vc, env=env, timeout=7200)
+            lines = [ln for ln in out.splitlines() if ln.startswith("VIOLATION") or ln.strip().startswith("clause=")]
+            clauses = sorted({ln.split("clause=")[1].split(" at ")[0] for ln in lines if "clause=" in ln})
+            results[f"{pid}:{tier}"] = {"exit": rc, "detected": rc == 1, "clauses": clauses[:8], "wall_s": round(time.time() - t0)}
+            if rc == 2:
+                results[f"{pid}:{tier}"]["tail"] = out[-600:]
+            print(seed_id, f"check {pid} {tier}: exit {rc}", "DETECTED" if rc == 1 else ("MACHINERY" if rc == 2 else "quiet"),
+                  clauses[:4], flush=True)
+    finally:
+        sh(f"git -C {REPO} worktree remove --force {wt}")
+        shutil.rmtree(wt, ignore_errors=True)
+        shutil.rmtree(vc, ignore_errors=True)
+    meta = json.loads((d / "meta.json").read_text())
+    meta.setdefault(key, {}).update(results)
+    (d / "meta.json").write_text(json.dumps(meta, indent=1))
+    return 0
+
+
 def table():
     rows = []
     for d in sorted(SEEDED.iterdir()):
@@ -123,5 +168,7 @@ if __name__ == "__main__":
         sys.exit(adopt(a[1], a[2], *a[3:]))
     if a[0] == "run":
         sys.exit(run(*a[1:]))
+    if a[0] == "iso":
+        sys.exit(run_isolated(*a[1:]))
     if a[0] == "table":
         table()
